@@ -183,7 +183,8 @@ fn read_uint_total() {
     let size: usize = kani::any();
     kani::assume(size <= 12);
     let r = read_uint(&b[..len], size);
-    assert!(r.is_err() == (len < size));
+    // short data is an error; a size wider than usize cannot be represented (an error, not a shift overflow: defect D13)
+    assert!(r.is_err() == (len < size || size > core::mem::size_of::<usize>()));
     kani::cover!(r.is_ok() && size == 12);
     kani::cover!(r.is_err());
 }
